@@ -124,19 +124,68 @@ fn build_map(c: &Case) -> SourceMap {
 }
 
 /// RFuncName. Returns None when the answer is not asserted, Some(answer) otherwise.
+///
+/// Several tokens may share one generated position; the order in which a map iterates over them,
+/// and which of them an inexact lookup lands on, is not fixed by the statement. The answer is then
+/// asserted only if every order of the tied tokens and every admissible starting token give the
+/// same one.
 fn rfuncname(c: &Case, q: &(u32, u32, String)) -> Option<Option<String>> {
     if !is_identifier(&q.2) {
         return Some(None);
     }
-    let lines = rlines(&c.program);
     let mut toks: Vec<(u32, u32, Option<String>)> = c.tokens.clone();
     toks.sort_by_key(|t| (t.0, t.1));
     let pos: Vec<(u32, u32)> = toks.iter().map(|t| (t.0, t.1)).collect();
-    let Some(start) = rlookup(&pos, (q.0, q.1)) else { return Some(None) };
-    // with several tokens at one position the iteration order among them is unspecified
-    if pos.windows(2).any(|w| w[0] == w[1]) {
+    let Some(hit) = rlookup(&pos, (q.0, q.1)) else { return Some(None) };
+    if !pos.windows(2).any(|w| w[0] == w[1]) {
+        return rfuncname_ordered(c, q, &toks, hit);
+    }
+    // tie groups: maximal runs of equal positions
+    let mut groups: Vec<(usize, usize)> = vec![];
+    let mut i = 0;
+    while i < pos.len() {
+        let mut j = i + 1;
+        while j < pos.len() && pos[j] == pos[i] {
+            j += 1;
+        }
+        groups.push((i, j));
+        i = j;
+    }
+    if groups.iter().map(|g| (1..=(g.1 - g.0)).product::<usize>()).product::<usize>() > 48 {
         return None;
     }
+    let (gs, ge) = *groups.iter().find(|g| pos[g.0] == pos[hit]).unwrap();
+    let exact = pos[hit] == (q.0, q.1);
+    let mut answer: Option<Option<Option<String>>> = None;
+    let mut orders: Vec<Vec<(u32, u32, Option<String>)>> = vec![vec![]];
+    for &(a, b) in &groups {
+        let mut next = vec![];
+        for perm in permutations(b - a) {
+            for o in &orders {
+                let mut o2 = o.clone();
+                o2.extend(perm.iter().map(|&k| toks[a + k].clone()));
+                next.push(o2);
+            }
+        }
+        orders = next;
+    }
+    for o in &orders {
+        // an exact query starts at the first token of its position, an inexact one at any of them
+        let starts: Vec<usize> = if exact { vec![gs] } else { (gs..ge).collect() };
+        for st in starts {
+            let r = rfuncname_ordered(c, q, o, st);
+            match &answer {
+                None => answer = Some(r),
+                Some(a) if *a == r => {}
+                Some(_) => return None,
+            }
+        }
+    }
+    answer.flatten()
+}
+
+fn rfuncname_ordered(c: &Case, q: &(u32, u32, String), toks: &[(u32, u32, Option<String>)], start: usize) -> Option<Option<String>> {
+    let lines = rlines(&c.program);
     let text = |i: usize| token_texts(lines.get(toks[i].0 as usize).copied(), toks[i].1);
     let must = |t: &Option<Vec<Option<String>>>, s: &str| t.as_ref().is_some_and(|v| v.iter().all(|x| x.as_deref() == Some(s)));
     let could = |t: &Option<Vec<Option<String>>>, s: &str| t.as_ref().is_none_or(|v| v.iter().any(|x| x.as_deref() == Some(s)));
@@ -282,7 +331,16 @@ fn explore_program(program: &str, pool: &[String], max_tokens: usize, l: &mut Lo
     let qn = query_names(pool);
     for k in 1..=max_tokens.min(cands.len()) {
         for subset in subsets_k(cands.len(), k) {
-            let tokens: Vec<(u32, u32, Option<String>)> = subset.iter().enumerate().map(|(i, &ci)| (cands[ci].0, cands[ci].1, if i % 3 == 2 { None } else { Some(format!("orig{i}")) })).collect();
+            let base: Vec<(u32, u32, Option<String>)> = subset.iter().enumerate().map(|(i, &ci)| (cands[ci].0, cands[ci].1, if i % 3 == 2 { None } else { Some(format!("orig{i}")) })).collect();
+            // small subsets also with one token doubled (two tokens at one position)
+            let dups: Vec<Option<usize>> = if k <= 2 { std::iter::once(None).chain((0..k).map(Some)).collect() } else { vec![None] };
+            for dup in dups {
+            let mut tokens = base.clone();
+            if let Some(d) = dup {
+                let mut t = tokens[d].clone();
+                t.2 = Some(format!("twin{d}"));
+                tokens.push(t);
+            }
             let mut queries = vec![];
             for t in &tokens {
                 for n in &qn {
@@ -297,7 +355,8 @@ fn explore_program(program: &str, pool: &[String], max_tokens: usize, l: &mut Lo
             }
             *sub += 1;
             let has_pair = c.queries.iter().any(|q| matches!(rfuncname(&c, q), Some(Some(_))));
-            l.case(has_pair, h64(&(k, program.is_ascii(), program.contains('\n'), has_pair, program.matches("function").count())));
+            l.case(has_pair, h64(&(k, program.is_ascii(), program.contains('\n'), has_pair, program.matches("function").count(), dup.is_some())));
+            }
         }
     }
 }
@@ -413,21 +472,30 @@ pub fn run(run: &mut Run) -> Finish {
                     for (i, t) in tokens.iter_mut().enumerate() {
                         t.2 = if i % 3 == 2 { None } else { Some(format!("orig{i}")) };
                     }
-                    let mut queries = vec![];
-                    for t in &tokens {
-                        for n in &qn {
-                            queries.push((t.0, t.1, n.clone()));
-                            queries.push((t.0, t.1 + 1, n.clone()));
+                    // the subset itself, and with each of its tokens doubled (two tokens at one position)
+                    for dup in std::iter::once(None).chain((0..tokens.len()).map(Some)) {
+                        let mut tokens = tokens.clone();
+                        if let Some(d) = dup {
+                            let mut t = tokens[d].clone();
+                            t.2 = Some(format!("twin{d}"));
+                            tokens.insert(d + 1, t);
                         }
+                        let mut queries = vec![];
+                        for t in &tokens {
+                            for n in &qn {
+                                queries.push((t.0, t.1, n.clone()));
+                                queries.push((t.0, t.1 + 1, n.clone()));
+                            }
+                        }
+                        let c = Case { program: p.clone(), tokens, queries, assert_results: true };
+                        if let Some((sig, what)) = check_case(&c) {
+                            l.violation_sub(idx, sub, Viol::new(format!("C17/unaligned-token/{}", sig.replace("resolution/", "")), what, json!({"case": serde_json::to_value(&c).unwrap(), "unaligned": true})));
+                        }
+                        sub += 1;
+                        let has_pair = c.queries.iter().any(|q| matches!(rfuncname(&c, q), Some(Some(_))));
+                        let asserted = c.queries.iter().filter(|q| rfuncname(&c, q).is_some()).count() * 4 / c.queries.len();
+                        l.case(has_pair, h64(&("unaligned", k, p.contains('\n'), has_pair, asserted, dup.is_some())));
                     }
-                    let c = Case { program: p.clone(), tokens, queries, assert_results: true };
-                    if let Some((sig, what)) = check_case(&c) {
-                        l.violation_sub(idx, sub, Viol::new(format!("C17/unaligned-token/{}", sig.replace("resolution/", "")), what, json!({"case": serde_json::to_value(&c).unwrap(), "unaligned": true})));
-                    }
-                    sub += 1;
-                    let has_pair = c.queries.iter().any(|q| matches!(rfuncname(&c, q), Some(Some(_))));
-                    let asserted = c.queries.iter().filter(|q| rfuncname(&c, q).is_some()).count() * 4 / c.queries.len();
-                    l.case(has_pair, h64(&("unaligned", k, p.contains('\n'), has_pair, asserted)));
                 }
             }
         }
@@ -460,7 +528,7 @@ pub fn run(run: &mut Run) -> Finish {
     Finish {
         level: "exploration",
         rule: "E1: minified programs generated from a statement grammar (function declarations, var statements, calls, a non-ASCII string literal; names a, ab, é, a𝒜 (astral), $_, a<ZWJ>b; 1-3 statements, every line-break placement), with every subset of <= 4 tokens placed on identifier starts, keywords, '(' and at / past the end of each line and on a missing line and original names attached to two of every three tokens; every token position and its successor column x every pool name + non-identifiers, through SourceMap, SourceMapIndex, SourceView, DecodedMap and a fresh view. Oracle RFuncName: nothing if the name is not an identifier; walk back from the looked-up token, token text = identifier at the token's UTF-16 column, first token whose text is the name and whose predecessor's text is 'function' yields its original name. A token whose column lies inside a surrogate pair may read as either neighbouring boundary, but must not change what aligned tokens of the line read (slice 5: every such column next to tokens on the declarations). Whitespace columns: crash-freedom only, every column. Window: name-token rank <= 126 must resolve, >= 128 must not, 127 not asserted. Distinct by construction; non-trivial = the program/map/queries contain a resolvable function pair.".into(),
-        assumptions: vec!["identifier classification of the model is exact for the characters used (ASCII, é, 𝒜, $, _, ZWJ, ZWNJ)".into(), "maps with several tokens at one position are not asserted (iteration order among them is unspecified)".into()],
+        assumptions: vec!["identifier classification of the model is exact for the characters used (ASCII, é, 𝒜, $, _, ZWJ, ZWNJ)".into(), "with several tokens at one position the answer is asserted only when every order of the tied tokens (and every starting token an inexact lookup may land on) gives the same one".into()],
         coverage_extra: json!({"names": names_pool()}),
     }
 }
